@@ -270,9 +270,70 @@ def _dispersive(ctx):
             _cmp(ctx, "R18.4", f"apply_params[{kind},dispersive{',c4' if with_c4 else ''}]:c{N}", got, want, f"c{N} inside the device comes from the c{N} table of the device's materials ({'(1-x) c[0] + x c[1]' if kind == 'continuous' else 'c[index]'}); outside unchanged")
 
 
+def _etch_backup(ctx):
+    """_init_arrays keeps a copy of the initial inverse permittivity whenever some device etches (apply_params restores
+    it before every application — without it an etched device takes its own previous result as background)."""
+    ix = ctx.index
+    fi = ix.function("fdtdx.fdtd.initialization._init_arrays")
+    ctx.unit(fi.where())
+    FIELD = "initial_inv_permittivities"
+    src = None
+    for node in ast.walk(fi.node):
+        if isinstance(node, ast.Call):
+            for kw in node.keywords:
+                if kw.arg == FIELD:
+                    src = kw.value
+    if not isinstance(src, ast.Name):
+        raise AnalysisError(f"_init_arrays no longer passes {FIELD}=<name> to the array container")
+    # backward slice over the top-level statements
+    params = {"objects", "inv_permittivities"}  # inputs of the slice: their own definitions are not followed
+    needed, chosen = {src.id}, []
+    for st in reversed(fi.node.body):
+        tg = set()
+        if isinstance(st, ast.Assign):
+            for t in st.targets:
+                tg |= {n.id for n in ast.walk(t) if isinstance(n, ast.Name)}
+        elif isinstance(st, ast.AnnAssign) and isinstance(st.target, ast.Name):
+            tg = {st.target.id}
+        if tg & (needed - params):
+            chosen.append(st)
+            needed -= tg
+            needed |= {n.id for n in ast.walk(st.value) if isinstance(n, ast.Name) and isinstance(n.ctx, ast.Load)}
+    chosen.reverse()
+    comp_vars = set()
+    for st in chosen:
+        for n in ast.walk(st):
+            if isinstance(n, ast.comprehension):
+                comp_vars |= {m.id for m in ast.walk(n.target) if isinstance(m, ast.Name)}
+    free = needed - params - comp_vars - {"jnp", "np", "jax", "any", "all", "len", "sum", "bool"}
+    if free or not chosen:
+        raise AnalysisError(f"_init_arrays: the value of {FIELD} depends on {sorted(free)} (expected: the devices and the material array only)")
+    mi = ix.module("fdtdx.fdtd.initialization")
+    rows, bad = [], []
+    inv = NdArr((3,), [Rat.atom(("ie", c)) for c in range(3)], SP)
+    for flags in ((), (False,), (True,), (False, False), (True, False), (False, True), (True, True), (False, True, False)):
+        it = ctx.fresh_interp()
+        devs = [Obj(None, {"use_etching": f, "name": f"dev{i}"}, f"dev{i}") for i, f in enumerate(flags)]
+        env = absint.Env(parent=it.module_env(mi), vars={"objects": Obj(None, {"devices": devs}, "objects"), "inv_permittivities": inv})
+        try:
+            it.exec_block(chosen, env)
+        except Raised as r:
+            raise AnalysisError(f"_init_arrays: backup slice raises: {r}")
+        found, v = env.lookup(src.id)
+        has = found and isinstance(v, NdArr) and all(to_rat(a).equals(to_rat(b)) for a, b in zip(v.data, inv.data))
+        none = found and v is None
+        rows.append((flags, "copy" if has else ("None" if none else repr(v)[:40])))
+        if any(flags) and not has:
+            bad.append((flags, rows[-1][1]))
+        if not any(flags) and not (none or has):
+            bad.append((flags, rows[-1][1]))
+    ctx.ob("R18.5", "_init_arrays:etch-backup", not bad, "the initial inverse permittivity is kept (an equal copy) whenever at least one device etches — also next to non-etched devices, in any list position", rows, "copy iff any device etches")
+
+
 def run(ctx):
     _continuous(ctx)
     _etched(ctx)
+    _etch_backup(ctx)
     _discrete(ctx)
     _dispersive(ctx)
     ctx.require_count("C18", len(ctx.obligations), 25)
